@@ -233,6 +233,15 @@ def run(prog, check):
             varsname = n.targets[0].id
     if varsname is None:
         raise AnalysisError('cannot find the freshly built series holder in ' + ic.qualname)
+    zero_sets = set()
+    for n in ast.walk(ic.node):
+        if isinstance(n, ast.If) and isinstance(n.test, ast.Compare) and isinstance(n.test.ops[0], ast.In) and \
+                _mentions_attr(n.test.comparators[0], 'InitialConditions'):
+            for a in ast.walk(n):
+                if isinstance(a, ast.Assign) and isinstance(a.targets[0], ast.Subscript) and isinstance(a.targets[0].value, ast.Name) \
+                        and a.targets[0].value.id != varsname and isinstance(n.test.left, ast.Name) and \
+                        unparse(a.targets[0].slice) == n.test.left.id:
+                    zero_sets.add(a.targets[0].value.id)
     for node in g.stmt_nodes():
         if node.kind != 'stmt' or not isinstance(node.ast, ast.Assign):
             continue
@@ -254,7 +263,7 @@ def run(prog, check):
                 continue
             if not g.dominates(tnode, node):
                 continue
-            if not _membership_guard(tnode.ast, lv):
+            if not _membership_guard(tnode.ast, lv, zero_sets):
                 continue
             tgt = [b for b, l in g.succ[tnode.id] if l is True]
             if tgt and node.id not in g.reach(tgt, avoid={hdr.id}, include_src=True):
@@ -265,14 +274,7 @@ def run(prog, check):
                  'k=0 value of a variable with an initial condition can be overwritten by constant propagation',
                  'initial condition on a constant endogenous / decorative variable')
     # pass 1 records every IC variable in the time-zero set (so that a guard on that set protects it)
-    rec = False
-    for n in ast.walk(ic.node):
-        if isinstance(n, ast.If) and isinstance(n.test, ast.Compare) and isinstance(n.test.ops[0], ast.In) and \
-                _mentions_attr(n.test.comparators[0], 'InitialConditions'):
-            for a in ast.walk(n):
-                if isinstance(a, ast.Assign) and isinstance(a.targets[0], ast.Subscript) and \
-                        isinstance(a.targets[0].value, ast.Name) and 'zero' in a.targets[0].value.id:
-                    rec = True
+    rec = bool(zero_sets)
     check.ob('C10.R4', '%s::ic-recorded-in-time-zero-set' % ic.key, rec, ic.where,
              'initial conditions are recorded in the time-zero constant set' if rec else
              'initial conditions are not recorded in the set the later passes consult', 'IC on a decorative constant')
@@ -339,14 +341,18 @@ def run(prog, check):
     check.floor('C10.R6', 2)
 
 
-def _membership_guard(test, lv):
-    """`lv in <time_zero...>` / `lv in <...InitialConditions>` possibly with .keys(), inside or/and"""
+def _membership_guard(test, lv, zero_sets=()):
+    """`lv in <time-zero set>` / `lv in <...InitialConditions>` possibly with .keys(), inside an `or`"""
     for c in ast.walk(test):
         if isinstance(c, ast.Compare) and len(c.ops) == 1 and isinstance(c.ops[0], ast.In) and \
                 isinstance(c.left, ast.Name) and c.left.id == lv:
-            txt = unparse(c.comparators[0])
-            if 'time_zero' in txt or 'InitialConditions' in txt:
-                # must not be under a `not`
+            tgt = c.comparators[0]
+            if isinstance(tgt, ast.Call) and call_name(tgt) == 'keys' and isinstance(tgt.func, ast.Attribute):
+                tgt = tgt.func.value
+            is_zero_set = isinstance(tgt, ast.Name) and tgt.id in zero_sets
+            is_ic = isinstance(tgt, ast.Attribute) and tgt.attr == 'InitialConditions'
+            if is_zero_set or is_ic:
+                # must not be under a `not`, nor conjoined with another condition
                 p = getattr(c, '_parent', None)
                 if isinstance(p, ast.UnaryOp) and isinstance(p.op, ast.Not):
                     continue
